@@ -1,9 +1,17 @@
 /-
-  C15 — `default_parses`: each reported default value is GraphQL syntax that reads back to the literal form
-  of the declared default.  FALSE on today's code (ledger I1): `_format_default_value` (translated from source
-  into `Generated.formatDefaultValue`) prints JSON / unescaped text and ignores the type.
-  Here: the full statement, four machine-checked counter-examples (each is also a replay on the real code,
-  see known_findings.d/C15.json), and the part that does hold (`default_parses_partial`).
+  C15 — `default_parses`: each reported default value is GraphQL syntax that reads back to the literal form of
+  the declared default.  Stated about `Generated.formatDefaultValue`, the statement-by-statement TRANSLATION of
+  `_format_default_value` (with proposed_fixes/C15-I1-partial.patch: GraphQL printing through
+  `print_ast(ast_node_from_value(..))` for everything but plain strings, which get `"`, `\`, LF, CR escaped via the
+  extracted table `_STRING_ESCAPES`).
+
+  * `default_parses_partial` — EVERY default kind round-trips: null, booleans, integers, floats (as their text),
+    strings, enum values (names, also when the internal value differs), lists and nested lists, input objects —
+    except a plain string default containing a control character other than TAB/LF/CR.
+  * `default_parses_refuted` — that exception is real: the full statement is false (raw FORM FEED, the very text
+    `test_introspection_on_input_object` pins); known finding I1 (residue).
+  * `read_print` — the literal reader inverts the printer on every well-formed literal (digit, escape, separator
+    and nesting lemmas).
 -/
 import PyGqlModel.Spec.Introspect
 
@@ -13,108 +21,754 @@ set_option linter.unusedVariables false
 namespace PyGql.Props.C15
 open PyGql PyGql.Introspect PyGql.Generated.Introspection
 
-/-- FULL statement: whenever the declared default `dv` of an input value of type `ty` has a literal form `l`
-    (`ast_node_from_value`, the form the SDL printer prints), the reported `defaultValue` text reads back to `l`.
-    (Python floats are left out: `Float = 3` is declared as `3.0`, a different literal of the same value.) -/
+/-! ### numbers -/
+private theorem digit_facts : ∀ d, d < 10 → (digitChar d).isDigit = true ∧ (digitChar d).toNat - 48 = d ∧ isIgnored (digitChar d) = false
+    ∧ digitChar d ≠ ']' ∧ digitChar d ≠ '}' := by decide
+
+private theorem showNatAux_read : ∀ (f n : Nat) (acc : Chars), n ≤ f → ∃ k, ∀ a, readDigits (showNatAux (f+1) n acc) a = readDigits acc (a * 10 ^ k + n) := by
+  intro f
+  induction f with
+  | zero =>
+    intro n acc h
+    have hn : n = 0 := by omega
+    subst hn
+    refine ⟨1, fun a => ?_⟩
+    simp [showNatAux, readDigits, digit_facts 0 (by omega)]
+  | succ f ih =>
+    intro n acc h
+    by_cases hlt : n < 10
+    · refine ⟨1, fun a => ?_⟩
+      have := digit_facts n hlt
+      simp [showNatAux, hlt, readDigits, this.1, this.2.1]
+    · obtain ⟨k, hk⟩ := ih (n / 10) (digitChar (n % 10) :: acc) (by omega)
+      refine ⟨k + 1, fun a => ?_⟩
+      have hd := digit_facts (n % 10) (by omega)
+      rw [showNatAux]
+      simp only [hlt, ↓reduceIte]
+      rw [hk a]
+      simp only [readDigits, hd.1, ↓reduceIte, hd.2.1]
+      congr 1
+      rw [Nat.pow_succ, ← Nat.mul_assoc]
+      generalize a * 10 ^ k = x
+      omega
+
+private theorem showNatAux_acc : ∀ (f n : Nat) (acc : Chars), showNatAux f n acc = showNatAux f n [] ++ acc := by
+  intro f
+  induction f with
+  | zero => intro n acc; simp [showNatAux]
+  | succ f ih =>
+    intro n acc
+    by_cases hlt : n < 10
+    · simp [showNatAux, hlt]
+    · simp only [showNatAux, hlt, ↓reduceIte]
+      rw [ih (n / 10) (digitChar (n % 10) :: acc), ih (n / 10) [digitChar (n % 10)]]
+      simp
+
+private theorem readDigits_showNat (n : Nat) (rest : Chars) : readDigits (showNat n ++ rest) 0 = readDigits rest n := by
+  unfold showNat
+  rw [← showNatAux_acc]
+  obtain ⟨k, hk⟩ := showNatAux_read n n rest (Nat.le_refl _)
+  rw [hk 0]; simp
+
+private theorem digit_zero : ∀ d, d < 10 → digitChar d = '0' → d = 0 := by decide
+
+/-- shape of a printed natural: a first digit, which is '0' only for 0 itself -/
+private theorem showNatAux_head : ∀ (f n : Nat) (acc : Chars), n ≤ f →
+    ∃ d cs, d < 10 ∧ showNatAux (f+1) n acc = digitChar d :: cs ∧ (d = 0 → n = 0 ∧ cs = acc) := by
+  intro f
+  induction f with
+  | zero =>
+    intro n acc h
+    exact ⟨n, acc, by omega, by simp [showNatAux, show n < 10 by omega], fun e => ⟨e, rfl⟩⟩
+  | succ f ih =>
+    intro n acc h
+    by_cases hlt : n < 10
+    · exact ⟨n, acc, hlt, by simp [showNatAux, hlt], fun e => ⟨e, rfl⟩⟩
+    · obtain ⟨d, cs, hd, e, hz⟩ := ih (n / 10) (digitChar (n % 10) :: acc) (by omega)
+      refine ⟨d, cs, hd, by rw [showNatAux]; simp only [hlt, ↓reduceIte]; exact e, fun e0 => ?_⟩
+      have := (hz e0).1
+      omega
+
+private theorem showNat_head (n : Nat) : ∃ d cs, d < 10 ∧ showNat n = digitChar d :: cs ∧ (d = 0 → cs = []) := by
+  obtain ⟨d, cs, hd, e, hz⟩ := showNatAux_head n n [] (Nat.le_refl _)
+  exact ⟨d, cs, hd, e, fun e0 => (hz e0).2⟩
+
+/-- what may follow a value inside a literal: nothing, a comma, or a closing bracket / brace -/
+def delim (rest : Chars) : Bool := match rest with | [] => true | c :: _ => c = ',' || c = ']' || c = '}'
+
+private theorem delim_head (c : Char) (r : Chars) (h : delim (c :: r) = true) :
+    c.isDigit = false ∧ c ≠ '.' ∧ c ≠ 'e' ∧ c ≠ 'E' ∧ isNameStart c = false ∧ isNameCont c = false ∧ isFloatCont c = false := by
+  simp [delim] at h
+  rcases h with (h | h) | h <;> subst h <;> decide
+
+private theorem readDigits_delim (rest : Chars) (a : Nat) (h : delim rest = true) : readDigits rest a = (a, rest) := by
+  cases rest with
+  | nil => rfl
+  | cons c r => simp [readDigits, (delim_head c r h).1]
+
+theorem readNumber_int (neg : Bool) (n : Nat) (rest : Chars) (h : delim rest = true) :
+    readNumber neg (showNat n ++ rest) = some (.int (if neg then - (n : Int) else (n : Int)), rest) := by
+  obtain ⟨d, cs, hd, e, hz⟩ := showNat_head n
+  have hr : readDigits (showNat n ++ rest) 0 = (n, rest) := by rw [readDigits_showNat, readDigits_delim rest n h]
+  have hdig := digit_facts d hd
+  unfold readNumber
+  rw [hr]
+  rw [e] at *
+  simp only [List.cons_append, hdig.1, ↓reduceIte]
+  by_cases h0 : digitChar d = '0'
+  · have hcs := hz (digit_zero d hd h0)
+    subst hcs
+    cases rest with
+    | nil => simp [h0]
+    | cons c r =>
+      have := delim_head c r h
+      simp [h0, this.1, this.2.1, this.2.2.1, this.2.2.2.1, this.2.2.2.2.1]
+  · cases rest with
+    | nil => simp [h0]
+    | cons c r =>
+      have := delim_head c r h
+      simp [h0, this.1, this.2.1, this.2.2.1, this.2.2.2.1, this.2.2.2.2.1]
+
+/-! ### strings -/
+private theorem hex_facts : ∀ n, n < 32 → hexVal (hexDigit (n / 4096 % 16)) = some 0 ∧ hexVal (hexDigit (n / 256 % 16)) = some 0
+    ∧ hexVal (hexDigit (n / 16 % 16)) = some (n / 16) ∧ hexVal (hexDigit (n % 16)) = some (n % 16) := by decide
+
+private theorem char_of_toNat (c : Char) (n : Nat) (h : c.toNat = n) : c = Char.ofNat n := by
+  rw [← h, Char.ofNat_toNat]
+
+private theorem readString_step (c : Char) (tl acc : Chars) :
+    readString (jsonEscCharRaw c ++ tl) acc = readString tl (c :: acc) := by
+  by_cases h1 : c = '"'
+  · subst h1; simp [jsonEscCharRaw, readString]
+  by_cases h2 : c = '\\'
+  · subst h2; simp [jsonEscCharRaw, readString]
+  by_cases h3 : c = '\n'
+  · subst h3; simp [jsonEscCharRaw, readString]
+  by_cases h4 : c = '\r'
+  · subst h4; simp [jsonEscCharRaw, readString]
+  by_cases h5 : c = '\t'
+  · subst h5; simp [jsonEscCharRaw, readString]
+  by_cases h6 : c.toNat = 8
+  · have := char_of_toNat c 8 h6; subst this; simp [jsonEscCharRaw, readString]
+  by_cases h7 : c.toNat = 12
+  · have := char_of_toNat c 12 h7; subst this; simp [jsonEscCharRaw, readString]
+  by_cases h8 : c.toNat < 32
+  · have hf := hex_facts c.toNat h8
+    simp only [jsonEscCharRaw, h1, h2, h3, h4, h5, h6, h7, h8, ↓reduceIte, hex4, List.cons_append, List.nil_append]
+    rw [readString]
+    · simp only [hf.1, hf.2.1, hf.2.2.1, hf.2.2.2]
+      have : ((0 * 16 + 0) * 16 + c.toNat / 16) * 16 + c.toNat % 16 = c.toNat := by omega
+      rw [this, Char.ofNat_toNat]
+    all_goals (intros; simp_all)
+  · simp only [jsonEscCharRaw, h1, h2, h3, h4, h5, h6, h7, h8, ↓reduceIte, List.cons_append, List.nil_append]
+    rw [readString]
+    · have : (c.toNat < 32 && c.toNat != 9) = false := by simp; omega
+      simp [h2, this]
+    all_goals (intros; simp_all)
+
+theorem readString_print (s : Chars) (rest acc : Chars) :
+    readString (s.flatMap jsonEscCharRaw ++ '"' :: rest) acc = some (acc.reverse ++ s, rest) := by
+  induction s generalizing acc with
+  | nil => simp [readString]
+  | cons c cs ih =>
+    rw [List.flatMap_cons, List.append_assoc, readString_step, ih]
+    simp
+
+/-- characters of a plain string default that the (repaired) formatter reports in readable form: everything
+    except the control characters other than TAB, LF, CR (those stay raw — the pinned residue of I1) -/
+def topCharOk (c : Char) : Bool := c.toNat ≥ 32 || c = '\t' || c = '\n' || c = '\r'
+
+private theorem readString_top_step (c : Char) (tl acc : Chars) (h : topCharOk c = true) :
+    readString ((table__STRING_ESCAPES.lookup c).getD [c] ++ tl) acc = readString tl (c :: acc) := by
+  by_cases h1 : c = '"'
+  · subst h1; simp [table__STRING_ESCAPES, List.lookup, readString]
+  by_cases h2 : c = '\\'
+  · subst h2; simp [table__STRING_ESCAPES, List.lookup, readString]
+  by_cases h3 : c = '\n'
+  · subst h3; simp [table__STRING_ESCAPES, List.lookup, readString]
+  by_cases h4 : c = '\r'
+  · subst h4; simp [table__STRING_ESCAPES, List.lookup, readString]
+  have hl : table__STRING_ESCAPES.lookup c = none := by
+    have e1 : (c == Char.ofNat 34) = false := by simpa using h1
+    have e2 : (c == Char.ofNat 92) = false := by simpa using h2
+    have e3 : (c == Char.ofNat 10) = false := by simpa using h3
+    have e4 : (c == Char.ofNat 13) = false := by simpa using h4
+    simp [table__STRING_ESCAPES, List.lookup, e1, e2, e3, e4]
+  rw [hl]
+  simp only [Option.getD_none, List.cons_append, List.nil_append]
+  rw [readString]
+  · have : (c.toNat < 32 && c.toNat != 9) = false := by
+      simp [topCharOk, h3, h4] at h
+      rcases h with h | h
+      · simp; omega
+      · subst h; decide
+    simp [h2, this]
+  all_goals (intros; simp_all)
+
+theorem readString_top (s : Chars) (rest acc : Chars) (h : s.all topCharOk = true) :
+    readString (Prims.escapeWith table__STRING_ESCAPES s ++ '"' :: rest) acc = some (acc.reverse ++ s, rest) := by
+  induction s generalizing acc with
+  | nil => simp [Prims.escapeWith, readString]
+  | cons c cs ih =>
+    simp only [List.all_cons, Bool.and_eq_true] at h
+    have hs := readString_top_step c (Prims.escapeWith table__STRING_ESCAPES cs ++ '"' :: rest) acc h.1
+    simp only [Prims.escapeWith, List.flatMap_cons, List.append_assoc] at hs ⊢
+    rw [hs]
+    have := ih (c :: acc) h.2
+    simp only [Prims.escapeWith] at this
+    rw [this]; simp
+
+/-! ### names and floats -/
+private theorem spanWhile_append (p : Char → Bool) (a rest : Chars) (ha : a.all p = true)
+    (hr : ∀ c r, rest = c :: r → p c = false) : spanWhile p (a ++ rest) = (a, rest) := by
+  induction a with
+  | nil =>
+    cases rest with
+    | nil => rfl
+    | cons c r => simp [spanWhile, hr c r rfl]
+  | cons x xs ih =>
+    simp only [List.all_cons, Bool.and_eq_true] at ha
+    simp [spanWhile, ha.1, ih ha.2]
+
+def floatBodyOk (body : Chars) : Bool :=
+  body.all isFloatCont &&
+  match body with
+  | c :: tl => c.isDigit && !(c = '0' && (match tl with | d :: _ => d.isDigit | [] => false)) &&
+      (match (readDigits body 0).2 with | d :: _ => d = '.' || d = 'e' || d = 'E' | [] => false)
+  | [] => false
+
+private theorem readDigits_append (body rest : Chars) : ∀ a, (readDigits body a).2 ≠ [] →
+    readDigits (body ++ rest) a = ((readDigits body a).1, (readDigits body a).2 ++ rest) := by
+  induction body with
+  | nil => intro a h; simp [readDigits] at h
+  | cons c cs ih =>
+    intro a h
+    by_cases hc : c.isDigit = true
+    · simp only [readDigits, hc, ↓reduceIte, List.cons_append] at h ⊢
+      exact ih _ h
+    · simp [readDigits, hc]
+
+theorem readNumber_float (neg : Bool) (body rest : Chars) (hb : floatBodyOk body = true) (h : delim rest = true) :
+    readNumber neg (body ++ rest) = some (.float (if neg then '-' :: body else body), rest) := by
+  cases body with
+  | nil => simp [floatBodyOk] at hb
+  | cons c tl =>
+    simp only [floatBodyOk, Bool.and_eq_true, Bool.not_eq_true'] at hb
+    obtain ⟨hall, ⟨hdig, hlead⟩, hmark⟩ := hb
+    cases hrd : (readDigits (c :: tl) 0).2 with
+    | nil => simp [hrd] at hmark
+    | cons d r =>
+      rw [hrd] at hmark
+      have happ := readDigits_append (c :: tl) rest 0 (by rw [hrd]; simp)
+      have hspan : spanWhile isFloatCont ((c :: tl) ++ rest) = (c :: tl, rest) := by
+        apply spanWhile_append _ _ _ hall
+        intro x xs e; subst e; exact (delim_head x xs h).2.2.2.2.2.2
+      have htl : tl ≠ [] := by
+        intro e; subst e
+        simp [readDigits, hdig] at hrd
+      unfold readNumber
+      rw [happ, hrd]
+      simp only [List.cons_append] at hspan ⊢
+      simp only [hdig, ↓reduceIte, hspan]
+      cases tl with
+      | nil => exact absurd rfl htl
+      | cons t ts =>
+        simp only [List.cons_append]
+        have hl : (decide (c = '0') && t.isDigit) = false := by simpa using hlead
+        simp only [hl, Bool.false_eq_true, ↓reduceIte]
+        simp [hmark]
+
+
+/-! ### well-formed literals -/
+
+def nameOk (nm : Chars) : Bool := match nm with | [] => false | c :: r => isNameStart c && r.all isNameCont
+def enumNameOk (nm : Chars) : Bool :=
+  nameOk nm && nm != ['t', 'r', 'u', 'e'] && nm != ['f', 'a', 'l', 's', 'e'] && nm != ['n', 'u', 'l', 'l']
+/-- a float token as text: optional sign, digits (no superfluous leading zero), then a fraction / exponent -/
+def floatTextOk (t : Chars) : Bool := match t with | '-' :: b => floatBodyOk b | b => floatBodyOk b
+
+mutual
+/-- literals the grammar can express: enum values and object keys are Names, float texts are float tokens -/
+def wfLit : Lit → Bool
+  | .float t => floatTextOk t
+  | .enum n => enumNameOk n
+  | .list xs => wfLits xs
+  | .obj fs => wfFields fs
+  | _ => true
+def wfLits : List Lit → Bool
+  | [] => true
+  | x :: xs => wfLit x && wfLits xs
+def wfFields : List (Chars × Lit) → Bool
+  | [] => true
+  | (k, v) :: fs => nameOk k && wfLit v && wfFields fs
+end
+
+mutual
+def cost : Lit → Nat
+  | .list xs => 1 + costs xs
+  | .obj fs => 1 + costFields fs
+  | _ => 1
+def costs : List Lit → Nat
+  | [] => 1
+  | x :: xs => 1 + max (cost x) (costs xs)
+def costFields : List (Chars × Lit) → Nat
+  | [] => 1
+  | (_, v) :: fs => 1 + max (cost v) (costFields fs)
+end
+
+private theorem alpha_range (c : Char) (h : c.isAlpha = true) : (65 ≤ c.toNat ∧ c.toNat ≤ 90) ∨ (97 ≤ c.toNat ∧ c.toNat ≤ 122) := by
+  simp only [Char.isAlpha, Char.isUpper, Char.isLower, Bool.or_eq_true, Bool.and_eq_true, decide_eq_true_eq, UInt32.le_iff_toNat_le] at h
+  simp only [Char.toNat]
+  rcases h with h | h
+  · left; exact ⟨h.1, h.2⟩
+  · right; exact ⟨h.1, h.2⟩
+private theorem digit_range (c : Char) : c.isDigit = (decide (48 ≤ c.toNat) && decide (c.toNat ≤ 57)) := by
+  simp only [Char.isDigit, UInt32.le_iff_toNat_le, Char.toNat]
+  rfl
+
+private theorem nameStart_facts (c : Char) (h : isNameStart c = true) :
+    isIgnored c = false ∧ c ≠ ']' ∧ c ≠ '}' ∧ c.isDigit = false ∧ c ≠ '"' ∧ c ≠ '[' ∧ c ≠ '{' ∧ c ≠ '-' ∧ isNameCont c = true := by
+  have hb : (65 ≤ c.toNat ∧ c.toNat ≤ 90) ∨ (97 ≤ c.toNat ∧ c.toNat ≤ 122) ∨ c.toNat = 95 := by
+    simp only [isNameStart, Bool.or_eq_true, decide_eq_true_eq] at h
+    rcases h with h | h
+    · rcases alpha_range c h with h | h
+      · exact Or.inl h
+      · exact Or.inr (Or.inl h)
+    · right; right; subst h; decide
+  have ne : ∀ x : Char, ¬ ((65 ≤ x.toNat ∧ x.toNat ≤ 90) ∨ (97 ≤ x.toNat ∧ x.toNat ≤ 122) ∨ x.toNat = 95) → c ≠ x := by
+    intro x hx e; subst e; exact hx hb
+  refine ⟨?_, ne _ (by decide), ne _ (by decide), ?_, ne _ (by decide), ne _ (by decide), ne _ (by decide), ne _ (by decide), ?_⟩
+  · have h1 := ne ' ' (by decide); have h2 := ne ',' (by decide); have h3 := ne '\n' (by decide)
+    have h4 := ne '\t' (by decide); have h5 := ne '\r' (by decide)
+    have h6 : c.toNat ≠ 0xFEFF := by omega
+    simp [isIgnored, h1, h2, h3, h4, h5, h6]
+  · rw [digit_range]
+    cases hd : (decide (48 ≤ c.toNat) && decide (c.toNat ≤ 57)) with
+    | false => rfl
+    | true => simp at hd; omega
+  · simp only [isNameCont, isNameStart] at h ⊢
+    simp [h]
+
+/-- first character of a printed well-formed literal: starts a token, closes nothing -/
+def headOk (cs : Chars) : Prop := ∃ c tl, cs = c :: tl ∧ isIgnored c = false ∧ c ≠ ']' ∧ c ≠ '}'
+
+private theorem digit_headOk (d : Nat) (hd : d < 10) (tl : Chars) : headOk (digitChar d :: tl) :=
+  ⟨_, tl, rfl, (digit_facts d hd).2.2.1, (digit_facts d hd).2.2.2.1, (digit_facts d hd).2.2.2.2⟩
+
+private theorem floatBody_head (b : Chars) (h : floatBodyOk b = true) : ∃ c tl, b = c :: tl ∧ c.isDigit = true := by
+  cases b with
+  | nil => simp [floatBodyOk] at h
+  | cons c tl =>
+    simp only [floatBodyOk, Bool.and_eq_true] at h
+    exact ⟨c, tl, rfl, h.2.1.1⟩
+
+private theorem isDigit_headOk (c : Char) (tl : Chars) (h : c.isDigit = true) : headOk (c :: tl) := by
+  rw [digit_range] at h
+  simp at h
+  have ne : ∀ x : Char, ¬ (48 ≤ x.toNat ∧ x.toNat ≤ 57) → c ≠ x := by intro x hx e; subst e; exact hx h
+  refine ⟨c, tl, rfl, ?_, ne _ (by decide), ne _ (by decide)⟩
+  have h1 := ne ' ' (by decide); have h2 := ne ',' (by decide); have h3 := ne '\n' (by decide)
+  have h4 := ne '\t' (by decide); have h5 := ne '\r' (by decide)
+  have h6 : c.toNat ≠ 0xFEFF := by omega
+  simp [isIgnored, h1, h2, h3, h4, h5, h6]
+
+private theorem printLit_head (l : Lit) (h : wfLit l = true) : headOk (printLit l) := by
+  cases l with
+  | null => exact ⟨'n', _, rfl, by decide, by decide, by decide⟩
+  | bool b => cases b <;> exact ⟨_, _, rfl, by decide, by decide, by decide⟩
+  | int n =>
+    cases n with
+    | ofNat n =>
+      obtain ⟨d, cs, hd, e, _⟩ := showNat_head n
+      simp only [printLit, showInt, e]
+      exact digit_headOk d hd cs
+    | negSucc n => exact ⟨'-', _, rfl, by decide, by decide, by decide⟩
+  | float t =>
+    simp only [wfLit] at h
+    simp only [printLit]
+    unfold floatTextOk at h
+    split at h
+    · exact ⟨'-', _, rfl, by decide, by decide, by decide⟩
+    · obtain ⟨c, tl, e, hc⟩ := floatBody_head _ h
+      rw [e]; exact isDigit_headOk c tl hc
+  | str s => exact ⟨'"', _, rfl, by decide, by decide, by decide⟩
+  | enum nm =>
+    simp only [wfLit, enumNameOk, nameOk, Bool.and_eq_true] at h
+    cases nm with
+    | nil => simp at h
+    | cons c r =>
+      have hns : isNameStart c = true := by
+        have := h.1.1.1
+        simp only [Bool.and_eq_true] at this
+        exact this.1
+      have := nameStart_facts c hns
+      exact ⟨c, r, rfl, this.1, this.2.1, this.2.2.1⟩
+  | list xs => exact ⟨'[', _, rfl, by decide, by decide, by decide⟩
+  | obj fs => exact ⟨'{', _, rfl, by decide, by decide, by decide⟩
+
+private theorem skipIgnored_headOk (cs rest : Chars) (h : headOk cs) : skipIgnored (cs ++ rest) = cs ++ rest := by
+  obtain ⟨c, tl, e, hi, _, _⟩ := h
+  subst e
+  simp [skipIgnored, hi]
+
+def classifyName (nm : Chars) : Lit :=
+  if nm = ['t', 'r', 'u', 'e'] then .bool true
+  else if nm = ['f', 'a', 'l', 's', 'e'] then .bool false
+  else if nm = ['n', 'u', 'l', 'l'] then .null
+  else .enum nm
+
+private theorem readVal_name (nm rest : Chars) (hn : nameOk nm = true) (hd : delim rest = true) (fuel : Nat) :
+    readVal (fuel + 1) (nm ++ rest) = some (classifyName nm, rest) := by
+  cases nm with
+  | nil => simp [nameOk] at hn
+  | cons c r =>
+    simp only [nameOk, Bool.and_eq_true] at hn
+    have f := nameStart_facts c hn.1
+    have hall : (c :: r).all isNameCont = true := by simp [f.2.2.2.2.2.2.2.2, hn.2]
+    have hspan := spanWhile_append isNameCont (c :: r) rest hall
+      (fun x xs e => by subst e; exact (delim_head x xs hd).2.2.2.2.2.1)
+    simp only [List.cons_append] at hspan
+    rw [readVal]
+    simp only [List.cons_append, skipIgnored, f.1, Bool.false_eq_true, ↓reduceIte]
+    split
+    · rename_i heq; cases heq
+    · rename_i heq; injection heq with h1 _; exact absurd h1 f.2.2.2.2.1
+    · rename_i heq; injection heq with h1 _; exact absurd h1 f.2.2.2.2.2.1
+    · rename_i heq; injection heq with h1 _; exact absurd h1 f.2.2.2.2.2.2.1
+    · rename_i heq; injection heq with h1 _; exact absurd h1 f.2.2.2.2.2.2.2.1
+    · rename_i c' r' _ _ _ _ heq
+      injection heq with h1 h2
+      subst h1; subst h2
+      simp only [f.2.2.2.1, Bool.false_eq_true, ↓reduceIte, hn.1, hspan, classifyName]
+      repeat' split
+      all_goals simp_all
+
+private theorem isDigit_not_open (c : Char) (h : c.isDigit = true) : c ≠ '"' ∧ c ≠ '[' ∧ c ≠ '{' ∧ c ≠ '-' := by
+  rw [digit_range] at h
+  simp at h
+  have ne : ∀ x : Char, ¬ (48 ≤ x.toNat ∧ x.toNat ≤ 57) → c ≠ x := by intro x hx e; subst e; exact hx h
+  exact ⟨ne _ (by decide), ne _ (by decide), ne _ (by decide), ne _ (by decide)⟩
+
+private theorem readVal_digit (c : Char) (tl : Chars) (h : c.isDigit = true) (fuel : Nat) :
+    readVal (fuel + 1) (c :: tl) = readNumber false (c :: tl) := by
+  obtain ⟨_, _, e, hi, _, _⟩ := isDigit_headOk c tl h
+  injection e with e1 e2; subst e1; subst e2
+  have f := isDigit_not_open c h
+  rw [readVal]
+  simp only [skipIgnored, hi, Bool.false_eq_true, ↓reduceIte]
+  split
+  · rename_i heq; cases heq
+  · rename_i heq; injection heq with h1 _; exact absurd h1 f.1
+  · rename_i heq; injection heq with h1 _; exact absurd h1 f.2.1
+  · rename_i heq; injection heq with h1 _; exact absurd h1 f.2.2.1
+  · rename_i heq; injection heq with h1 _; exact absurd h1 f.2.2.2
+  · rename_i c' r' _ _ _ _ heq
+    injection heq with h1 h2
+    subst h1; subst h2
+    simp [h]
+
+private theorem readVal_minus (r : Chars) (fuel : Nat) : readVal (fuel + 1) ('-' :: r) = readNumber true r := by
+  simp [readVal, skipIgnored, isIgnored]
+
+private theorem readVal_space (cs : Chars) (fuel : Nat) : readVal fuel (' ' :: cs) = readVal fuel cs := by
+  cases fuel with
+  | zero => simp [readVal]
+  | succ f => rw [readVal, readVal]; simp [skipIgnored, isIgnored]
+
+private theorem readItems_sep (cs : Chars) (fuel : Nat) : readItems fuel (',' :: ' ' :: cs) = readItems fuel cs := by
+  cases fuel with
+  | zero => simp [readItems]
+  | succ f => rw [readItems, readItems]; simp [skipIgnored, isIgnored]
+
+private theorem readFields_sep (cs : Chars) (fuel : Nat) : readFields fuel (',' :: ' ' :: cs) = readFields fuel cs := by
+  cases fuel with
+  | zero => simp [readFields]
+  | succ f => rw [readFields, readFields]; simp [skipIgnored, isIgnored]
+
+/-- one `key: value` entry of an object literal -/
+private theorem readFields_step (k : Chars) (v : Lit) (f : Nat) (tail : Chars) (res : List (Chars × Lit) × Chars)
+    (hk : nameOk k = true) (hv : readVal f (printLit v ++ tail) = some (v, tail)) (ht : readFields f tail = some res) :
+    readFields (f + 1) (k ++ [':', ' '] ++ printLit v ++ tail) = some ((k, v) :: res.1, res.2) := by
+  cases k with
+  | nil => simp [nameOk] at hk
+  | cons c r =>
+    simp only [nameOk, Bool.and_eq_true] at hk
+    have fc := nameStart_facts c hk.1
+    have hall : (c :: r).all isNameCont = true := by simp [fc.2.2.2.2.2.2.2.2, hk.2]
+    have hspan := spanWhile_append isNameCont (c :: r) (':' :: ' ' :: (printLit v ++ tail)) hall
+      (fun x xs e => by injection e with e1 _; subst e1; decide)
+    simp only [List.cons_append, List.append_assoc, List.nil_append] at hspan ⊢
+    rw [readFields]
+    simp only [skipIgnored, fc.1, Bool.false_eq_true, ↓reduceIte]
+    split
+    · rename_i heq; injection heq with h1 _; exact absurd h1 fc.2.2.1
+    · rename_i c' r' heq
+      injection heq with h1 h2
+      subst h1; subst h2
+      simp only [hk.1, ↓reduceIte, hspan]
+      simp [skipIgnored, isIgnored, readVal_space, hv, ht]
+    · rename_i heq; cases heq
+
+private theorem fuel_succ (fuel k : Nat) (h : k + 1 ≤ fuel) : ∃ f, fuel = f + 1 ∧ k ≤ f := ⟨fuel - 1, by omega, by omega⟩
+
+mutual
+private theorem readVal_print : (l : Lit) → wfLit l = true → ∀ (fuel : Nat) (rest : Chars), cost l ≤ fuel → delim rest = true →
+    readVal fuel (printLit l ++ rest) = some (l, rest)
+  | .null, _, fuel, rest, hc, hd => by
+    obtain ⟨f, rfl, _⟩ := fuel_succ fuel 0 (by simpa [cost] using hc)
+    exact readVal_name ['n', 'u', 'l', 'l'] rest (by decide) hd f
+  | .bool true, _, fuel, rest, hc, hd => by
+    obtain ⟨f, rfl, _⟩ := fuel_succ fuel 0 (by simpa [cost] using hc)
+    exact readVal_name ['t', 'r', 'u', 'e'] rest (by decide) hd f
+  | .bool false, _, fuel, rest, hc, hd => by
+    obtain ⟨f, rfl, _⟩ := fuel_succ fuel 0 (by simpa [cost] using hc)
+    exact readVal_name ['f', 'a', 'l', 's', 'e'] rest (by decide) hd f
+  | .int (.ofNat n), _, fuel, rest, hc, hd => by
+    obtain ⟨f, rfl, _⟩ := fuel_succ fuel 0 (by simpa [cost] using hc)
+    obtain ⟨d, cs, hd10, e, _⟩ := showNat_head n
+    have hr := readNumber_int false n rest hd
+    simp only [printLit, showInt]
+    rw [e] at hr ⊢
+    rw [List.cons_append, readVal_digit _ _ (digit_facts d hd10).1 f]
+    simpa using hr
+  | .int (.negSucc n), _, fuel, rest, hc, hd => by
+    obtain ⟨f, rfl, _⟩ := fuel_succ fuel 0 (by simpa [cost] using hc)
+    simp only [printLit, showInt, List.cons_append]
+    rw [readVal_minus, readNumber_int true (n + 1) rest hd]
+    simp [Int.negSucc_eq]
+  | .float t, h, fuel, rest, hc, hd => by
+    obtain ⟨f, rfl, _⟩ := fuel_succ fuel 0 (by simpa [cost] using hc)
+    simp only [wfLit] at h
+    simp only [printLit]
+    unfold floatTextOk at h
+    split at h
+    · rename_i b
+      rw [List.cons_append, readVal_minus, readNumber_float true b rest h hd]; simp
+    · obtain ⟨c, tl, e, hcd⟩ := floatBody_head _ h
+      subst e
+      rw [List.cons_append, readVal_digit _ _ hcd f]
+      have := readNumber_float false (c :: tl) rest h hd
+      simpa using this
+  | .str s, _, fuel, rest, hc, hd => by
+    obtain ⟨f, rfl, _⟩ := fuel_succ fuel 0 (by simpa [cost] using hc)
+    simp only [printLit, jsonStringRaw, List.cons_append, List.append_assoc]
+    rw [readVal]
+    simp [skipIgnored, isIgnored, readString_print]
+  | .enum nm, h, fuel, rest, hc, hd => by
+    obtain ⟨f, rfl, _⟩ := fuel_succ fuel 0 (by simpa [cost] using hc)
+    simp only [wfLit, enumNameOk, Bool.and_eq_true, bne_iff_ne, ne_eq] at h
+    have := readVal_name nm rest h.1.1.1 hd f
+    simp only [printLit]
+    rw [this]
+    simp [classifyName, h.1.1.2, h.1.2, h.2]
+  | .list xs, h, fuel, rest, hc, hd => by
+    obtain ⟨f, rfl, hf⟩ := fuel_succ fuel (costs xs) (by simp only [cost] at hc; omega)
+    simp only [wfLit] at h
+    have ih := readItems_print xs h f rest hf
+    simp only [printLit, List.cons_append, List.append_assoc]
+    rw [readVal]
+    simp [skipIgnored, isIgnored, ih]
+  | .obj fs, h, fuel, rest, hc, hd => by
+    obtain ⟨f, rfl, hf⟩ := fuel_succ fuel (costFields fs) (by simp only [cost] at hc; omega)
+    simp only [wfLit] at h
+    have ih := readFields_print fs h f rest hf
+    simp only [printLit, List.cons_append, List.append_assoc]
+    rw [readVal]
+    simp [skipIgnored, isIgnored, ih]
+
+private theorem readItems_print : (xs : List Lit) → wfLits xs = true → ∀ (fuel : Nat) (rest : Chars), costs xs ≤ fuel →
+    readItems fuel (printLits xs ++ ']' :: rest) = some (xs, rest)
+  | [], _, fuel, rest, hc => by
+    obtain ⟨f, rfl, _⟩ := fuel_succ fuel 0 (by simpa [costs] using hc)
+    simp [printLits, readItems, skipIgnored, isIgnored]
+  | [x], h, fuel, rest, hc => by
+    obtain ⟨f, rfl, hf⟩ := fuel_succ fuel (max (cost x) (costs [])) (by simp only [costs] at hc ⊢; omega)
+    simp only [wfLits, Bool.and_eq_true] at h
+    have hx := readVal_print x h.1 f (']' :: rest) (by omega) (by simp [delim])
+    have hnil := readItems_print [] (by simp [wfLits]) f rest (by omega)
+    obtain ⟨c, tl, e, hi, hb, _⟩ := printLit_head x h.1
+    simp only [printLits, List.nil_append] at hnil ⊢
+    rw [readItems, skipIgnored_headOk _ _ ⟨c, tl, e, hi, hb, ‹_›⟩]
+    rw [e] at hx ⊢
+    simp only [List.cons_append] at hx ⊢
+    split
+    · rename_i heq; injection heq with h1 _; exact absurd h1 hb
+    · simp [hx, hnil]
+  | x :: y :: ys, h, fuel, rest, hc => by
+    obtain ⟨f, rfl, hf⟩ := fuel_succ fuel (max (cost x) (costs (y :: ys))) (by simp only [costs] at hc ⊢; omega)
+    simp only [wfLits, Bool.and_eq_true] at h
+    have hx := readVal_print x h.1 f (',' :: ' ' :: (printLits (y :: ys) ++ ']' :: rest)) (by omega) (by simp [delim])
+    have htl := readItems_print (y :: ys) (by simp [wfLits, h.2]) f rest (by omega)
+    obtain ⟨c, tl, e, hi, hb, _⟩ := printLit_head x h.1
+    simp only [printLits, List.append_assoc, List.cons_append, List.nil_append] at hx ⊢
+    rw [readItems, skipIgnored_headOk _ _ ⟨c, tl, e, hi, hb, ‹_›⟩]
+    rw [e] at hx ⊢
+    simp only [List.cons_append] at hx ⊢
+    split
+    · rename_i heq; injection heq with h1 _; exact absurd h1 hb
+    · simp [hx, readItems_sep, htl]
+
+private theorem readFields_print : (fs : List (Chars × Lit)) → wfFields fs = true → ∀ (fuel : Nat) (rest : Chars), costFields fs ≤ fuel →
+    readFields fuel (printLitFields fs ++ '}' :: rest) = some (fs, rest)
+  | [], _, fuel, rest, hc => by
+    obtain ⟨f, rfl, _⟩ := fuel_succ fuel 0 (by simpa [costFields] using hc)
+    simp [printLitFields, readFields, skipIgnored, isIgnored]
+  | [(k, v)], h, fuel, rest, hc => by
+    obtain ⟨f, rfl, hf⟩ := fuel_succ fuel (max (cost v) (costFields [])) (by simp only [costFields] at hc ⊢; omega)
+    simp only [wfFields, Bool.and_eq_true] at h
+    have hv := readVal_print v h.1.2 f ('}' :: rest) (by omega) (by simp [delim])
+    have hnil := readFields_print [] (by simp [wfFields]) f rest (by omega)
+    simp only [printLitFields, List.nil_append] at hnil
+    exact readFields_step k v f _ _ h.1.1 hv (by rw [hnil])
+  | (k, v) :: kv :: kvs, h, fuel, rest, hc => by
+    obtain ⟨f, rfl, hf⟩ := fuel_succ fuel (max (cost v) (costFields (kv :: kvs))) (by simp only [costFields] at hc ⊢; omega)
+    have h : (nameOk k = true ∧ wfLit v = true) ∧ wfFields (kv :: kvs) = true := by
+      rw [wfFields] at h; simpa [Bool.and_eq_true] using h
+    have hv := readVal_print v h.1.2 f (',' :: ' ' :: (printLitFields (kv :: kvs) ++ '}' :: rest)) (by omega) (by simp [delim])
+    have htl := readFields_print (kv :: kvs) h.2 f rest (by omega)
+    have := readFields_step k v f (',' :: ' ' :: (printLitFields (kv :: kvs) ++ '}' :: rest)) (kv :: kvs, rest) h.1.1 hv
+      (by rw [readFields_sep, htl])
+    simpa [printLitFields, List.append_assoc] using this
+end
+
+mutual
+private theorem cost_le : (l : Lit) → cost l ≤ (printLit l).length + 1
+  | .null => by simp [cost]
+  | .bool _ => by simp [cost]
+  | .int _ => by simp [cost]
+  | .float _ => by simp [cost]
+  | .str _ => by simp [cost]
+  | .enum _ => by simp [cost]
+  | .list xs => by
+    have := costs_le xs
+    simp only [cost, printLit, List.length_cons, List.length_append, List.length_nil]; omega
+  | .obj fs => by
+    have := costFields_le fs
+    simp only [cost, printLit, List.length_cons, List.length_append, List.length_nil]; omega
+private theorem costs_le : (xs : List Lit) → costs xs ≤ (printLits xs).length + 2
+  | [] => by simp [costs]
+  | [x] => by
+    have := cost_le x
+    simp only [costs, printLits]; omega
+  | x :: y :: ys => by
+    have h1 := cost_le x
+    have h2 := costs_le (y :: ys)
+    simp only [costs, printLits, List.length_append, List.length_cons, List.length_nil] at h2 ⊢; omega
+private theorem costFields_le : (fs : List (Chars × Lit)) → costFields fs ≤ (printLitFields fs).length + 2
+  | [] => by simp [costFields]
+  | [(k, v)] => by
+    have := cost_le v
+    simp only [costFields, printLitFields, List.length_append, List.length_cons, List.length_nil]; omega
+  | (k, v) :: kv :: kvs => by
+    have h1 := cost_le v
+    have h2 := costFields_le (kv :: kvs)
+    simp only [costFields, printLitFields, List.length_append, List.length_cons, List.length_nil] at h2 ⊢; omega
+end
+
+/-- `read_print`: the literal reader inverts the printer (`print_ast` on value nodes) on every well-formed literal —
+    integers of any size and sign, float texts, strings with any characters (escapes `\" \\ \n \r \t \b \f \u00XX`),
+    names, lists and objects nested to any depth with `, ` separators. -/
+theorem read_print (l : Lit) (h : wfLit l = true) : readLit (printLit l) = some l := by
+  have := readVal_print l h ((printLit l).length + 1) [] (cost_le l) rfl
+  simp only [List.append_nil] at this
+  simp [readLit, this, skipIgnored]
+
+/-! ### `default_parses` -/
+
+/-- FULL statement: whenever the declared default `dv` of an input value of type `ty` has a well-formed literal form
+    `l` (`ast_node_from_value`, what the SDL printer prints), the reported `defaultValue` text reads back to `l`.
+    Literal level: a plain string default is compared where its literal form is a string (an `ID` / custom-scalar
+    default that looks like an integer has an Int literal form but is reported quoted — the same value after coercion). -/
 def DefaultParsesStatement : Prop :=
-  ∀ (s : SchemaD) (ty : Ty) (dv : J) (l : Lit), noFloat dv = true → litOf s 64 ty dv = some l →
+  ∀ (s : SchemaD) (ty : Ty) (dv : J) (l : Lit), litOf s 64 ty dv = some l → wfLit l = true →
+    (∀ x, dv = .str x → Prims.baseIsKind s ty .enum = false → l = .str x.toList) →
     ∃ text, formatDefaultValue s true dv ty = some text ∧ readLit text = some l
 
-/-- schema of the counter-examples: `enum E { A B }` with internal values "A" and 1, `input I { a: Int }` -/
 def witnessSchema : SchemaD :=
   { types := [ { kind := .scalar, name := "Int" }, { kind := .scalar, name := "String" },
                { kind := .enum, name := "E", values := [{ name := "A", value := .str "A" }, { name := "B", value := .num 1 }] },
-               { kind := .input, name := "I", inputFields := [{ name := "a", type := .named "Int" }] },
+               { kind := .input, name := "I", inputFields := [{ name := "a", type := .named "Int" }, { name := "e", type := .list (.named "E") }] },
                { kind := .object, name := "Query", fields := [{ name := "f", type := .named "Int" }] } ] }
 
-/-- I1, enum: `f(e: E = A)` reports `"A"` — a string literal, not the enum literal `A`. -/
-theorem default_enum_printed_as_string :
-    formatDefaultValue witnessSchema true (.str "A") (.named "E") = some ['"', 'A', '"']
-    ∧ readLit ['"', 'A', '"'] = some (.str ['A'])
-    ∧ litOf witnessSchema 64 (.named "E") (.str "A") = some (.enum ['A']) := ⟨rfl, rfl, rfl⟩
+/-- I1 (residue): a string default containing FORM FEED is reported raw between the quotes — not a literal.
+    (`test_introspection_on_input_object` pins exactly this text shape.) -/
+theorem default_string_control_raw :
+    formatDefaultValue witnessSchema true (.str (String.ofList [Char.ofNat 12])) (.named "String") = some ['"', Char.ofNat 12, '"']
+    ∧ readLit ['"', Char.ofNat 12, '"'] = none
+    ∧ litOf witnessSchema 64 (.named "String") (.str (String.ofList [Char.ofNat 12])) = some (.str [Char.ofNat 12]) := ⟨rfl, rfl, rfl⟩
 
-/-- I1, enum with internal value: default `1` (the value of `B`) reports `1` — an int literal, not `B`. -/
-theorem default_enum_internal_value_printed :
-    formatDefaultValue witnessSchema true (.num 1) (.named "E") = some ['1']
-    ∧ readLit ['1'] = some (.int 1)
-    ∧ litOf witnessSchema 64 (.named "E") (.num 1) = some (.enum ['B']) := ⟨rfl, rfl, rfl⟩
-
-/-- I1, input object: default `{a: 1}` reports `{"a": 1}` (quoted key) — not GraphQL syntax at all. -/
-theorem default_input_object_is_json :
-    formatDefaultValue witnessSchema true (.obj [("a", .num 1)]) (.named "I") = some "{\"a\": 1}".toList
-    ∧ readLit "{\"a\": 1}".toList = none
-    ∧ litOf witnessSchema 64 (.named "I") (.obj [("a", .num 1)]) = some (.obj [(['a'], .int 1)]) := ⟨rfl, rfl, rfl⟩
-
-/-- I1, string with a quote: default `a"b` reports `"a"b"` — unescaped, not a literal. -/
-theorem default_string_unescaped :
-    formatDefaultValue witnessSchema true (.str "a\"b") (.named "String") = some "\"a\"b\"".toList
-    ∧ readLit "\"a\"b\"".toList = none
-    ∧ litOf witnessSchema 64 (.named "String") (.str "a\"b") = some (.str ['a', '"', 'b']) := ⟨rfl, rfl, rfl⟩
-
-/-- the full statement is FALSE on the translated code (witness: the enum default; the other three refute it as well) -/
+/-- the full statement is FALSE (also with the partial repair): witness above -/
 theorem default_parses_refuted : ¬ DefaultParsesStatement := by
   intro h
-  obtain ⟨text, h1, h2⟩ := h witnessSchema (.named "E") (.str "A") (.enum ['A']) rfl rfl
-  have e := default_enum_printed_as_string.1
-  rw [e] at h1
+  obtain ⟨text, h1, h2⟩ := h witnessSchema (.named "String") (.str (String.ofList [Char.ofNat 12])) (.str [Char.ofNat 12])
+    default_string_control_raw.2.2 rfl (by intro x hx _; injection hx with hx; subst hx; rfl)
+  rw [default_string_control_raw.1] at h1
   injection h1 with h1
   subst h1
-  rw [default_enum_printed_as_string.2.1] at h2
-  injection h2 with h2
+  rw [default_string_control_raw.2.1] at h2
   cases h2
 
-/-! ### the part that holds -/
+private theorem litOf_null (s : SchemaD) : ∀ (fuel : Nat) (ty : Ty) (l : Lit), litOf s fuel ty .null = some l → l = .null := by
+  intro fuel
+  induction fuel with
+  | zero => intro ty l h; simp [litOf] at h
+  | succ f ih =>
+    intro ty l h
+    cases ty with
+    | nonNull t =>
+      rw [litOf] at h
+      cases hr : litOf s f t .null with
+      | none => simp [hr] at h
+      | some l' =>
+        have := ih t l' hr
+        subst this
+        simp [hr] at h
+    | named n => simp [litOf] at h; exact h.symm
+    | list t => simp [litOf] at h; exact h.symm
 
-/-- characters that may stand unescaped inside a quoted GraphQL string -/
-def plainChar (c : Char) : Bool := c != '"' && c != '\\' && (c.toNat ≥ 32 || c.toNat == 9)
+/-- `default_parses_partial` — which defaults round-trip: ALL of them (null, booleans, integers, floats as text,
+    enum values by NAME whatever the internal value, strings inside lists / objects with full escaping, lists and
+    nested lists, input objects) except a plain (top-level, non-enum) string default containing a control character
+    other than TAB, LF, CR, which is the hypothesis `hs` (and the refutation above). -/
+theorem default_parses_partial (s : SchemaD) (ty : Ty) (dv : J) (l : Lit)
+    (hl : litOf s 64 ty dv = some l) (hwf : wfLit l = true)
+    (hs : ∀ x, dv = .str x → Prims.baseIsKind s ty .enum = false → l = .str x.toList ∧ x.toList.all topCharOk = true) :
+    ∃ text, formatDefaultValue s true dv ty = some text ∧ readLit text = some l := by
+  by_cases hnone : Prims.isNone dv = true
+  · have : dv = .null := by cases dv <;> simp_all [Prims.isNone]
+    subst this
+    have := litOf_null s 64 ty l hl
+    subst this
+    exact ⟨['n', 'u', 'l', 'l'], by simp [formatDefaultValue, Prims.isNone], rfl⟩
+  by_cases hstr : (Prims.isStr dv && !(Prims.baseIsKind s ty Kind.enum)) = true
+  · simp only [Bool.and_eq_true, Bool.not_eq_true'] at hstr
+    obtain ⟨x, hx⟩ : ∃ x, dv = .str x := by cases dv <;> simp_all [Prims.isStr]
+    subst hx
+    obtain ⟨hlx, hok⟩ := hs x rfl hstr.2
+    subst hlx
+    refine ⟨'"' :: (Prims.escapeWith table__STRING_ESCAPES x.toList ++ ['"']), ?_, ?_⟩
+    · simp [formatDefaultValue, Prims.isNone, Prims.isStr, hstr.2, Prims.pyStr]
+    · have := readString_top x.toList [] [] hok
+      simp only [readLit, List.length_cons, readVal, skipIgnored, isIgnored]
+      simp [this, skipIgnored]
+  · refine ⟨printLit l, ?_, read_print l hwf⟩
+    have hn : Prims.isNone dv = false := by simpa using hnone
+    have hs' : (Prims.isStr dv && !(Prims.baseIsKind s ty Kind.enum)) = false := by simpa using hstr
+    simp only [formatDefaultValue, Bool.not_true, Bool.false_eq_true, ↓reduceIte, hn, hs', Prims.printAstOfValue, hl, Option.map_some]
 
-private theorem readString_plain (cs : Chars) (h : cs.all plainChar = true) (rest acc : Chars) :
-    readString (cs ++ '"' :: rest) acc = some (acc.reverse ++ cs, rest) := by
-  induction cs generalizing acc with
-  | nil => simp [readString]
-  | cons c cs ih =>
-    simp only [List.all_cons, Bool.and_eq_true] at h
-    obtain ⟨hc, hcs⟩ := h
-    have h1 : c ≠ '"' := by intro e; subst e; simp [plainChar] at hc
-    have h2 : c ≠ '\\' := by intro e; subst e; simp [plainChar] at hc
-    have h3 : ¬ (c.toNat < 32 ∧ c.toNat ≠ 9) := by
-      simp [plainChar] at hc; omega
-    rw [List.cons_append, readString]
-    · simp only [h2, ↓reduceIte]
-      have : (c.toNat < 32 && c.toNat != 9) = false := by
-        cases hh : (c.toNat < 32 && c.toNat != 9) with
-        | false => rfl
-        | true => simp at hh; exact absurd hh h3
-      simp only [this, Bool.false_eq_true, ↓reduceIte]
-      rw [ih hcs]
-      simp
-    all_goals (intros; simp_all)
+/-- non-vacuity: a nested default `{a: -7, e: [B, A]}` (enum `B` has internal value 1) satisfies every hypothesis;
+    so do an enum default given by internal value and a nested list -/
+example : litOf witnessSchema 64 (.named "I") (.obj [("a", .num (-7)), ("e", .arr [.num 1, .str "A"])])
+      = some (.obj [(['a'], .int (-7)), (['e'], .list [.enum ['B'], .enum ['A']])])
+    ∧ wfLit (.obj [(['a'], .int (-7)), (['e'], .list [.enum ['B'], .enum ['A']])]) = true
+    ∧ formatDefaultValue witnessSchema true (.obj [("a", .num (-7)), ("e", .arr [.num 1, .str "A"])]) (.named "I")
+      = some "{a: -7, e: [B, A]}".toList := ⟨rfl, by decide, rfl⟩
 
-/-- `default_parses_partial`: the statement holds for `null`, for booleans, and for strings made of characters
-    that need no escape (no quote, no backslash, no control character other than TAB), at a scalar type.
-    NOT covered (false or not proved): enums, input objects, strings that need escaping (all false, see above);
-    integers and lists of the covered values (true on the model as far as the correspondence shows; the digit
-    and separator lemmas for the reader are not proved here). -/
-theorem default_parses_partial (s : SchemaD) (n : String) (td : TypeD) (dv : J) (l : Lit)
-    (ht : s.findType n = some td) (hk : td.kind = .scalar)
-    (hdv : dv = .null ∨ (∃ b, dv = .bool b) ∨ (∃ str : String, dv = .str str ∧ str.toList.all plainChar = true ∧ n = "String"))
-    (hl : litOf s 64 (.named n) dv = some l) :
-    ∃ text, formatDefaultValue s true dv (.named n) = some text ∧ readLit text = some l := by
-  rcases hdv with h | ⟨b, h⟩ | ⟨str, h, hp, hn⟩
-  · subst h
-    simp [litOf] at hl; subst hl
-    exact ⟨_, rfl, rfl⟩
-  · subst h
-    simp [litOf, ht, hk, scalarNode] at hl; subst hl
-    cases b <;> exact ⟨_, rfl, rfl⟩
-  · subst h; subst hn
-    simp [litOf, ht, hk, scalarNode, specifiedScalars] at hl; subst hl
-    refine ⟨'"' :: (str.toList ++ ['"']), by simp [formatDefaultValue, Prims.isBool, Prims.isNone, Prims.isStr, Prims.pyStr], ?_⟩
-    simp only [readLit, List.length_cons, readVal, skipIgnored, isIgnored]
-    simp [readString_plain str.toList hp [] [], skipIgnored]
+example : litOf witnessSchema 64 (.list (.list (.named "Int"))) (.arr [.arr [.num 1, .num 20], .arr [], .null])
+      = some (.list [.list [.int 1, .int 20], .list [], .null])
+    ∧ formatDefaultValue witnessSchema true (.arr [.arr [.num 1, .num 20], .arr [], .null]) (.list (.list (.named "Int")))
+      = some "[[1, 20], [], null]".toList := ⟨rfl, rfl⟩
 
-/-- non-vacuity: the pinned default of `@deprecated(reason:)` satisfies the hypotheses -/
-example : ("No longer supported".toList.all plainChar = true) ∧
-    litOf witnessSchema 64 (.named "String") (.str "No longer supported") = some (.str "No longer supported".toList) := ⟨by decide, rfl⟩
-
+example : floatTextOk "-2.25".toList = true ∧ floatTextOk "1e+20".toList = true ∧ floatTextOk "3".toList = false
+    ∧ topCharOk '\t' = true ∧ topCharOk (Char.ofNat 12) = false := by decide
 end PyGql.Props.C15
